@@ -118,6 +118,9 @@ type Machine struct {
 	// such an assignment ends the evaluation with Sym("effect"). A continue / break statement and
 	// the end of a statement list run with CheckBody end it with Sym("end").
 	AssignEffect func(obj types.Object) bool
+	// AssignEffectName is AssignEffect with a name per assignment (cur = cur.left -> "left"): a
+	// non-empty result ends the evaluation with Sym(name).
+	AssignEffectName func(obj types.Object, rhs ast.Expr) string
 	// Inline, when set, gives the signature and body a call runs in place (an extracted helper of
 	// the same package): the body is executed with the parameters bound to the evaluated
 	// arguments and its return value(s) become the call's value.
@@ -605,6 +608,11 @@ func (m *Machine) execStmt(s ast.Stmt) {
 				if x.Tok == token.ASSIGN && m.AssignEffect != nil && m.AssignEffect(obj) && !m.disc {
 					panic(returned{Sym("effect")})
 				}
+				if x.Tok == token.ASSIGN && m.AssignEffectName != nil && !m.disc {
+					if name := m.AssignEffectName(obj, x.Rhs[i]); name != "" {
+						panic(returned{Sym(name)})
+					}
+				}
 				if x.Tok == token.ASSIGN || x.Tok == token.DEFINE {
 					m.locals[obj] = vals[i]
 				} else {
@@ -820,6 +828,13 @@ func (m *Machine) execStmt(s ast.Stmt) {
 }
 
 func (m *Machine) discover(s ast.Stmt) {
+	// each branch is discovered from the same state (a local assigned in one branch must not
+	// change how the sibling branch names its operands)
+	saved := make(map[types.Object]Value, len(m.locals))
+	for k, v := range m.locals {
+		saved[k] = v
+	}
+	defer func() { m.locals = saved }()
 	defer func() {
 		if e := recover(); e != nil {
 			if _, ok := e.(returned); ok {
